@@ -1,130 +1,214 @@
 """Per-property configuration: which contract groups/units decide it, what stays assumed."""
 
 COMMON_TRUSTED = [
-    "rustc + Kani 0.68 codegen + CBMC 6.11 + CaDiCaL (bit-precise machine arithmetic, no idealisation)",
+    "rustc + Kani 0.68 codegen + CBMC 6.11 + CaDiCaL (bit-precise machine arithmetic incl. f32, no idealisation)",
     "Verus 0.2026.09.13 + Z3 (overflow checked on every machine-integer operation)",
-    "splicer: appends #[cfg(kani)] child modules and inserts #[cfg_attr(kani, ..)] lines only",
+    "Kani splicer: appends #[cfg(kani)] child modules and inserts #[cfg_attr(kani, ..)] lines into a scratch copy only",
+    "Verus extractor: items pulled by name from /repo on every run; every textual change is a logged normalisation (evidence.coverage.normalisations)",
 ]
 
-PROPS = {
-    "C08": {
-        "kani": ["c08_bounds"],
-        "verus": [],
-        "explanation": "61 ViewBounds impls + range_bounds, each compared with one Python-slice oracle over i128; "
-                       "loop-free, full domain of the selector type and every n <= isize::MAX: complete proofs.",
-        "assumptions": [
-            "axis length n <= isize::MAX (type invariant of Vec/slice backed surfaces; larger n excluded by kani::assume)",
-            "oracle py_slice/py_index written from the property statement (NumPy semantics) is the reference",
-            "Kani does not prove termination (functions are loop-free)",
-        ],
-        "trusted_base": COMMON_TRUSTED,
-        "technique": "Kani/CBMC loop-free full-domain harness per impl against a spec oracle (complete proof)",
-        "level_text": "Every ViewBounds impl (61) and range_bounds proved equal to a Python-slice oracle over i128 for all "
-                      "values of the selector type and all axis lengths <= isize::MAX; includes absence of overflow/panic. "
-                      "Loop-free symbolic execution over the full input domain is a complete proof.",
-        "level_note": "Trusts rustc/Kani/CBMC; n <= isize::MAX assumed; the oracle is transcribed from the statement.",
-    },
+PROPS = {}
+
+PROPS["C02"] = {
+    "kani": ["dec_payload", "dec_matchers"],
+    "verus": ["numdec"],
+    "technique": "Verus contracts on number_decode / utf8_decode (unbounded); Kani/CBMC harnesses on the payload decoders with number_decode replaced by its proved contract",
+    "level_text": "Proved (Verus, all inputs): number_decode returns the saturated decimal value of every digit string of any length and None otherwise, without overflow; "
+                  "utf8_decode on every automaton-shaped sequence returns exactly the encoded scalar value or U+FFFD, never an invalid char. "
+                  "Proved (Kani, all usize): keyboard_decode_key, sgr_color. Payload decoders (mouse, cursor report, DECRPM, size, kitty keyboard/image, DA1) are checked for every "
+                  "numeric value on fixed sequence templates (bounded stand-ins, listed under bounded_checks, not counted as proved). "
+                  "The DFA walk, rescheduling, raw-event framing, termination and the tty read loop are NOT decided.",
+    "level_note": "Assumed: MatcherDecoder::{decode,decode_byte,take_candidate}, the compiled automata (incl. that utf8_nfa accepts only utf8_shape strings), unix.rs read loop, TermCap/OSC/paste decoders (String/BTreeMap heavy), std specs listed in trusted_base.",
+    "assumptions": [
+        "the byte-at-a-time DFA walk (MatcherDecoder) and NFA compilation are outside both verifiers: totality/termination of the walk, 'None when exhausted' and raw events being non-empty in-order slices are assumed, not decided",
+        "utf8_shape (first-byte class + 10xxxxxx tails) is what utf8_nfa accepts: assumed",
+        "payload decoder harnesses replace number_decode by a stub justified by its Verus contract; each covers one sequence template (bounded in shape, complete in numeric values)",
+        "TermCapMatcher, OSControlMatcher/parse_color, BracketedPasteMatcher, ReportSettingMatcher: not under contract (String/BTreeMap/str parsing)",
+    ],
+}
+
+PROPS["C04"] = {
+    "kani": ["dec_tables", "dec_payload", "dec_matchers"],
+    "verus": ["numdec"],
+    "technique": "Kani/CBMC full-domain harnesses on numeric tables and colour forms; Verus round-trip lemmas (decimal, UTF-8); payload decoders on templates with number_decode replaced by its contract",
+    "level_text": "Proved: DecMode/DecModeStatus::from_usize invert `as usize` on every variant and reject everything else (all usize); sgr_color maps 5;n to the xterm-256 colour n and 2;r;g;b / 2:cs:r:g:b to "
+                  "exactly (r,g,b) for every value (Kani, complete); number_decode(decimal(n)) == n for every usize and utf8_value(utf8_enc(c)) == c for every scalar value (Verus lemmas over the proved contracts). "
+                  "Payload decoders return exactly the transmitted coordinates/modifiers/levels/ids for every numeric value on fixed templates (bounded stand-ins). "
+                  "Tokenisation, tag ordering, the static key table and concatenation are NOT decided.",
+    "level_note": "Assumed: merged DFA + tag ordering, basic_events_nfa key table, that core::fmt prints usize in decimal (digits() spec), OSC colour / termcap / paste decoders.",
+    "assumptions": [
+        "one NFA per family merged into one tagged DFA, tag ordering, the static xterm/fixterms key table and non-interference of concatenated sequences: assumed (C03/C15 not applicable)",
+        "button/key names are compared with the library's own naming table, as the property says",
+        "decimal rendering spec digits(n) stands for what a terminal transmits",
+    ],
+}
+
+PROPS["C05"] = {
+    "kani": ["c05_encoder"],
+    "verus": [],
+    "technique": "Kani/CBMC full-domain harnesses on TTYEncoder::encode per command variant (panic freedom, literal sequences, SGR code selection); core::fmt rendering assumed",
+    "level_text": "Proved (Kani, every parameter value and capability setting): encode never panics or overflows for CursorTo/CursorMove/Scroll/ScrollRegion/EraseChars/DecModeSet/DecModeGet/KeyboardLevel/Color query; "
+                  "parameterless commands emit exactly their ECMA-48/xterm bytes; Face and FaceModify without colours emit one well-formed SGR sequence selecting exactly the requested attributes "
+                  "(0 first for Face; 1/22, 3/23, 5/25, 9/29, 4, 4:n, 24). Which decimal digits core::fmt prints for the numeric parameters, colour parameters (C20 covers the selection), Title/Termcap/Raw strings are NOT decided.",
+    "level_note": "Assumed: core::fmt (write! templates and integer Display) - the sink in the harnesses records literal bytes and counts formatted writes; colours go through write! into Chunks and are outside CBMC's reach.",
+    "assumptions": [
+        "core::fmt is intractable for CBMC (probe: > 7 min, > 10 GB): the pairing of each numeric template with its arguments and the decimal rendering are read from the source, not proved",
+        "Face/FaceModify with colours, Title, Termcap, Raw, Char, Image are not under contract",
+        "oracle byte sequences are transcribed from ECMA-48 / xterm ctlseqs / VT510",
+    ],
+}
+
+PROPS["C06"] = {
+    "kani": ["c06_face", "dec_sgr", "dec_payload", "c05_encoder"],
+    "verus": [],
+    "technique": "Kani/CBMC full-domain harnesses: attribute set algebra, FaceModify::apply against SGR semantics, sgr_color; sgr_face against a reference SGR interpreter on parameter templates (bounded)",
+    "level_text": "Proved (Kani, complete): FaceAttrs pack/unpack/insert/remove/contains and all six bit operators agree with the (underline style, 5 flags) view for all pairs; "
+                  "FaceModify::apply(m, f) sets/clears every colour and attribute independently and reset restores the default face for every m x f; sgr_color decodes every colour form and consumes exactly its own parameters; "
+                  "FaceModify without colours is encoded with standard codes. sgr_face equals a reference SGR interpreter (later overrides earlier, 0/empty resets, colon forms, unknown codes ignored) for every numeric value on "
+                  "~45 parameter templates (bounded stand-ins). Encoder->decoder round trip of colours passes through core::fmt and the DFA: NOT decided end to end.",
+    "level_note": "Assumed: TTYCellWriter/TTYCommandDecoder (DFA), core::fmt rendering of colour components; SGR codes FaceModify cannot express (7/27, 39/49/59, 2/8) and the ambiguous 21 are outside the compared domain.",
+    "assumptions": [
+        "reference SGR interpreter transcribed from ECMA-48/xterm/kitty; inputs it marks undefined (codes FaceModify cannot express, 21, malformed colour forms) are not compared",
+        "semicolon-form extended colours inside sgr_face are not run through CBMC (15 min timeouts); their content is covered on sgr_color directly",
+        "escape-sequence cell writer and chunking of written bytes rest on the DFA decoder: assumed",
+    ],
+}
+
+PROPS["C07"] = {
+    "kani": ["c07_twin", "c08_bounds"],
+    "verus": ["surface"],
+    "technique": "Verus: ghost window model (root matrix, origin, extent, transposed flag) as representation invariant on the extracted Shape/Surface/SurfaceMut/iterator code (unbounded); Kani for the ViewBounds contract of every impl and a bounded twin",
+    "level_text": "Proved (Verus, all sizes and all chains by induction on the invariant): Shape::from/view keep `rep` (the shape denotes the sub-window the bounds select; empty on absent bounds); transpose flips the window; "
+                  "offset of every in-window position is the root cell the model says, lies inside the buffer and is injective; nth/iteration is row-major with exactly h*w items; get/is_empty/view/view_owned/as_ref/iter "
+                  "(trait defaults, verified in place); fill/clear/set write only offsets of window cells (frame); SurfaceMutIter::nth's raw-pointer access is in bounds and never repeats an offset. "
+                  "The ViewBounds trait contract assumed there is proved for all 61 impls (Kani, complete). insert/map/fill_with/to_owned_surf and forwarding impls only through the bounded twin.",
+    "level_note": "Assumed: the raw pointer dereference itself, &/&mut/Arc/Box forwarding impls, Clone/Default of items, hash; preconditions index+n+1 <= usize::MAX on nth and buffer length <= isize::MAX.",
+    "assumptions": [
+        "surfaces are built from SurfaceOwned/Shape::from and view/transpose (SurfaceView::new with an arbitrary Shape is outside the domain)",
+        "slice length <= isize::MAX (Rust allocation invariant); Iterator::nth is called with index + n + 1 <= usize::MAX",
+        "SurfaceMut::{insert,fill_with,get_mut,iter_mut,view_mut}, Surface::{map,to_owned_surf,hash}, SurfaceOwned::new_with: only the bounded Kani twin (3x4 surface) exercises insert/iter/get through nested and transposed views",
+    ],
+}
+
+PROPS["C08"] = {
+    "kani": ["c08_bounds"],
+    "verus": [],
+    "technique": "Kani/CBMC loop-free full-domain harness per impl against a spec oracle (complete proof)",
+    "level_text": "Every ViewBounds impl (61) and range_bounds proved equal to a Python-slice oracle over i128 for all values of the selector type and all axis lengths <= isize::MAX; "
+                  "includes 0 <= start < end <= n and absence of overflow/panic. Loop-free symbolic execution over the full input domain is a complete proof.",
+    "level_note": "Trusts rustc/Kani/CBMC; n <= isize::MAX assumed; the oracle is transcribed from the statement.",
+    "assumptions": [
+        "axis length n <= isize::MAX (type invariant of Vec/slice backed surfaces)",
+        "oracle py_slice/py_index written from the property statement (NumPy semantics) is the reference",
+        "Kani does not prove termination (the functions are loop-free)",
+    ],
+}
+
+PROPS["C10"] = {
+    "kani": ["c10_layout"],
+    "verus": [],
+    "technique": "Kani/CBMC full-domain harnesses on constraint clamp and alignment arithmetic; the View-tree induction is not mechanised",
+    "level_text": "Proved (Kani, all usize): Size::clamp / BoxConstraint::clamp return a size inside every constraint with min <= max (identity inside), loosen/loose/tight as documented; "
+                  "Align::align places the (clamped) child inside the space for Start/Center/End/Expand/Shrink and never panics. These are the functions every leaf and container view ends its layout with. "
+                  "Flex distribution, Container margin arithmetic, the layout tree (TreeStore), apply_to/FindPath, Frame/ScrollBar/Tag/Dynamic and rendering are NOT decided (CBMC does not get through the SmallVec layout arena; Verus has no trait-object support for View).",
+    "level_note": "Partial: only the clamp/align arithmetic is under contract. Known finding class outside reach: flex_layout with zero children and SpaceAround divides by zero (seen by reading, not decidable by the machinery).",
+    "assumptions": [
+        "the modular View contract (children stay within the constraint they are given) is stated in DESIGN.md but not mechanised",
+        "Container::layout, flex_layout, Layout::apply_to, FindPath, Text/Image/glyph views, JSON-built trees: outside both verifiers here",
+    ],
+}
+
+PROPS["C11"] = {
+    "kani": ["c11_kitty"],
+    "verus": [],
+    "technique": "Kani function contracts (proof_for_contract + stub_verified) on the placement-id functions",
+    "level_text": "Proved (Kani contracts, all positions below 65536): kitty_placement_id == row + col*65536 <= 2^32-1, kitty_placement_to_pos inverts it, ids are injective - so erase(img, pos) addresses exactly the "
+                  "placement draw(img, pos) creates (both call the same function on the same position). Payload = base64 of row-major RGBA rests on C07 (iteration order) + C14 (encoder). "
+                  "Chunking into <= 4096-byte pieces with m= flags, the transmit-once HashMap cache and the control strings (core::fmt, dyn Write) are NOT decided.",
+    "level_note": "Partial: identifiers only. KittyImageHandler::draw/erase/handle bodies are assumed.",
+    "assumptions": [
+        "draw and erase derive the placement id by calling kitty_placement_id(pos) (read from the source)",
+        "kitty_image_id = hash % (2^32-1) may be 0, which the protocol reserves: observation, not checked",
+        "chunk loop, HashMap cache, re-transmission on error: not under contract",
+    ],
+}
+
+PROPS["C13"] = {
+    "kani": ["c13_octree"],
+    "verus": ["kdtree"],
+    "technique": "Verus: recursive contract on the k-d tree search (exact nearest neighbour for every well-formed tree, unbounded); Kani/CBMC full-domain harnesses on octree path/summary/leaf/error arithmetic",
+    "level_text": "Proved (Verus, every tree size, every query colour): KDTree::find's find_rec returns a node of the subtree whose squared RGB distance is <= that of every node of the subtree, for every tree satisfying the "
+                  "k-d invariant (children precede parents, left <= split <= right per dimension); dist is the squared Euclidean distance without overflow. Proved (Kani, complete): OcTreePath yields the 8 MSB-first child indices; "
+                  "OcTreeInfo::join is a commutative monoid; leaf colour is the channel mean and fits a byte; ColorError::add clamps to 0..=255. "
+                  "That KDTree::new establishes the invariant, octree insertion/pruning/palette size, sampling and dithering order are NOT decided.",
+    "level_note": "Assumed: kd_wf(KDTree::new(colors)) (sort_by_key + recursion on sub-slices is outside Verus; CBMC drowns in std sort), OcTree::{insert,prune,build_palette}, Image::quantize loops.",
+    "assumptions": [
+        "the tree invariant kd_wf is an assumption about KDTree::new, not proved",
+        "i32::pow(2) on channel differences specified as x*x",
+        "palette bounds (1..=max(requested,8)), losslessness for small colour counts, sampling rule and Floyd-Steinberg diffusion order: not under contract",
+    ],
+}
+
+PROPS["C14"] = {
+    "kani": ["c14_base64", "c14_enc_table"],
+    "verus": ["base64enc", "base64dec"],
+    "technique": "Verus contracts on the streaming encoder (carry-buffer algebra, unbounded, chunk independence as lemmas); Kani/CBMC complete harnesses for both tables and the 4-char quantum round trip; bounded Kani twin for the decoder loop",
+    "level_text": "Proved (Verus, any data, any partition into writes): Base64Encoder::write appends full(carry+buf) and keeps rem(carry+buf) as carry, finish appends the padded tail; with lemma_full_concat/lemma_two_writes the output "
+                  "of any write sequence is b64(concatenation) per RFC 4648. Proved (Kani, complete): BASE64_ENCODE is the RFC alphabet, BASE64_DECODE its inverse, decode_u8x4(enc3(a,b,c)) == [a,b,c] for all 2^24 groups, "
+                  "padded quanta give 1/2 bytes, decode_* total on arbitrary bytes. Decoder buffering (buffer_fill/read) under short reads: bounded twin only (one quantum, reader step 1..=4).",
+    "level_note": "Assumed: <Vec<u8> as Write>::write_all appends; sink W := Vec<u8>, source R := AnyReader (the io::Read contract as a specification); table lookups specified and discharged by Kani; dec4 == inverse of enc3 is the Kani quantum harness.",
+    "assumptions": [
+        "encoder sink: Vec<u8> (N6); other io::Write sinks may fail, which the contract does not model",
+        "decoder source: AnyReader, an external_body reader specified by the io::Read contract (0 only at EOF/empty buffer, short reads allowed, may fail unless `reliable`)",
+        "round trip unb64(b64(s)) == s is the composition of the encoder proof, the decoder proof and the Kani quantum harness (dec4(enc3(a,b,c)) == [a,b,c], padded forms); the composition lemma itself is not mechanised",
+        "table lookups are routed through b64_enc_lookup whose specification is discharged by the Kani harness c14_encode_table",
+    ],
 }
 
 PROPS["C16"] = {
     "kani": [],
     "verus": ["ioqueue"],
-    "explanation": "IOQueue under a representation invariant (shape of offset + running length) and an abstract view "
-                   "bytes() = flatten(chunks).skip(offset); every public operation and the Write/Read/BufRead methods "
-                   "(extracted verbatim from src/common.rs on each run) proved against it for queues, chunks and payloads of any size. "
-                   "Because each operation is proved assuming only wf(), every interleaving of operations follows by induction.",
+    "technique": "Verus: representation invariant + abstract byte-sequence view on the extracted IOQueue methods (unbounded)",
+    "level_text": "Deductive proof (Verus/Z3) of len() == |bytes()|, write appends, consume/consume_with/read drop exactly the first k bytes, "
+                  "flush keeps bytes, clear_but_last keeps exactly the first chunk, for all queue states and all operation histories (by the invariant). "
+                  "The tty write loop in unix.rs is assumed, not proved.",
+    "level_note": "Trusts Verus/Z3, the listed std specifications and the extractor's logged normalisations; unix.rs poll loop, OS and frame convention assumed.",
     "assumptions": [
         "tty side (UnixTerminal::poll select loop, rustix write, tee file, guard_io) is outside the contracts: it is assumed to call "
         "consume_with with a closure that returns k <= slice.len() (the write(2) contract) and to append only through IOQueue::write",
         "`frame = flush-delimited chunk` is a convention of run_render; clear_but_last is proved to keep exactly the first chunk "
         "(the one whose transmission may have started) and the read offset",
         "IOQueue::write precondition: length + buf.len() <= usize::MAX (physical memory bound)",
-        "std specifications assumed: VecDeque::{is_empty,front,back_mut}, <Vec<u8> as io::Write>::write, VecDeque::drain(1..) as 'keep first', std::cmp::min",
         "Verus gives no counterexample and the VecDeque<Vec<u8>> queue is intractable for CBMC (2 probes > 6 min): failed obligations are reported with no-failing-input-found",
     ],
-    "trusted_base": COMMON_TRUSTED,
-    "technique": "Verus: representation invariant + abstract byte-sequence view on the extracted IOQueue methods (unbounded)",
-    "level_text": "Deductive proof (Verus/Z3) of len() == |bytes()|, write appends, consume/consume_with/read drop exactly the first k bytes, "
-                  "flush keeps bytes, clear_but_last keeps exactly the first chunk, for all queue states and all operation histories (by the invariant). "
-                  "The tty write loop in unix.rs is assumed, not proved.",
-    "level_note": "Trusts Verus/Z3, the listed std specifications and the extractor's logged normalisations; unix.rs poll loop, OS and frame convention assumed.",
 }
 
-PROPS["C06"] = {
-    "kani": ["c06_face", "dec_sgr"],
+PROPS["C20"] = {
+    "kani": ["c20_colors"],
     "verus": [],
-    "explanation": "",
-    "assumptions": [],
-    "trusted_base": COMMON_TRUSTED,
-    "technique": "Kani/CBMC loop-free full-domain harnesses against a set-algebra view and an SGR reference semantics",
-    "level_text": "",
-    "level_note": "",
+    "technique": "Kani/CBMC full-domain (bit-precise f32) harnesses on the table search",
+    "level_text": "Proved (Kani, every non-NaN f32): nearest(v, CUBE), nearest(v, GREYS) and nearest(v, [0,.33,.66,1]) return an arg-min of |v - table[j]| in f32 arithmetic; the tables are strictly increasing; "
+                  "the grey level is monotone in the luminance. That per-channel nearest + nearest-to-mean + the final distance comparison give the global optimum over the 240 entries (separability), "
+                  "the sRGB->linear conversion, Color::luma, LinColor::distance (SIMD) and the emitted index digits are NOT decided.",
+    "level_note": "Partial: selection primitive only. color_sgr_encode writes through core::fmt and calls rasterize (powf, SSE dpps) which CBMC cannot enter.",
+    "assumptions": [
+        "hand-typed linear-light tables equal LinColor::from of the 30 palette levels: assumed",
+        "LinColor::distance is Euclidean in linear RGB and srgb->linear is monotone: assumed contracts of the rasterize dependency",
+        "global optimality over 240 entries follows from separability of squared Euclidean distance (argument in DESIGN.md, not mechanised)",
+    ],
 }
 
-PROPS["C04"] = {
-    "kani": ["dec_tables", "dec_payload", "dec_matchers"],
-    "verus": ["numdec"],
-    "explanation": "",
-    "assumptions": [],
-    "trusted_base": COMMON_TRUSTED,
-    "technique": "Kani/CBMC harnesses on payload decoders with number_decode replaced by its contract; Verus on number_decode",
-    "level_text": "",
-    "level_note": "",
-}
-PROPS["C02"] = {
-    "kani": ["dec_payload", "dec_matchers"],
-    "verus": ["numdec"],
-    "explanation": "",
-    "assumptions": [],
-    "trusted_base": COMMON_TRUSTED,
-    "technique": "Verus contracts on number_decode/utf8_decode; Kani/CBMC harnesses on payload decoders",
-    "level_text": "",
-    "level_note": "",
-}
-
-PROPS["C14"] = {
-    "kani": ["c14_base64", "c14_enc_table"],
-    "verus": ["base64enc"],
-    "explanation": "",
-    "assumptions": [],
-    "trusted_base": COMMON_TRUSTED,
-    "technique": "Verus contracts on the streaming encoder (carry-buffer algebra, unbounded); Kani/CBMC complete harnesses for tables and quantum round trip; bounded Kani twin for the decoder",
-    "level_text": "",
-    "level_note": "",
-}
-
-PROPS["C07"] = {
-    "kani": ["c07_twin", "c08_bounds"],
-    "verus": ["surface"],
-    "explanation": "",
-    "assumptions": [],
-    "trusted_base": COMMON_TRUSTED,
-    "technique": "Verus: ghost window model (root matrix, origin, extent, transposed flag) as representation invariant on the extracted Shape/Surface/SurfaceMut code (unbounded)",
-    "level_text": "",
-    "level_note": "",
-}
-
-PROPS["C05"] = {
-    "kani": ["c05_encoder"],
-    "verus": [],
-    "explanation": "",
-    "assumptions": [],
-    "trusted_base": COMMON_TRUSTED,
-    "technique": "Kani/CBMC full-domain harnesses on TTYEncoder::encode (panic freedom, literal sequences, SGR code selection); decimal rendering by core::fmt assumed",
-    "level_text": "",
-    "level_note": "",
-}
+for _p in PROPS.values():
+    _p.setdefault("trusted_base", COMMON_TRUSTED)
+    _p.setdefault("explanation", _p["level_text"])
 
 NOT_APPLICABLE = {
     "C01": "monolithic TerminalRenderer::frame over trait objects/HashMap/Arc; the property needs a terminal screen model as ghost state over whole histories; no callee carries it",
     "C03": "relational over read schedules of a run-time-built DFA + SmallVec + boxed matchers; tokeniser half quantifies over NFA::compile; outside Verus and intractable for CBMC",
+    "C09": "Cell::layout / TerminalWriter work on Cell (Arc glyphs/images, unicode-width tables) and the io::Write adapters rest on the DFA decoders; no contract within reach of either verifier was built",
     "C12": "single function mixing f32 quantisation, HashMap iteration order, LRU and core::fmt; property defined through a sixel interpreter; nothing smaller carries a contract",
     "C15": "soundness of Thompson/power-set construction over BTreeMap/BTreeSet/Rc; no specs in Verus, intractable in CBMC",
     "C17": "threads, signals, select, termios, Drop ordering - no concurrency/OS model in either verifier",
     "C18": "recursive BTreeMap trie via entry/closure APIs over all histories; str parsers - outside both verifiers",
     "C19": "serde visitors / serde_json / str formatting and parsing - outside both verifiers",
-    # claimed later as their checks are built; until then honestly not claimed
-    "C02": "check not built yet", "C04": "check not built yet", "C05": "check not built yet", "C06": "check not built yet",
-    "C07": "check not built yet", "C09": "check not built yet", "C10": "check not built yet", "C11": "check not built yet",
-    "C13": "check not built yet", "C14": "check not built yet", "C20": "check not built yet",
 }
